@@ -5,6 +5,9 @@ import json, subprocess
 HOOK_COMMITS = []  # filled in as hook commits are made in /repo
 
 CHECKS = {
+ "C20": dict(cat="fault_enumeration", technique="runtime fault injection through a pure storage.Store/Graph implementation: per statement every observed driver call position x failure mode is executed while monitors watch Execute's return values, completion and surviving goroutines; race detector on the same workload",
+   text="Complete over (call position x mode) for each statement of the corpus (28 hand-picked statements covering every driver entry point, + generated ones; ~2 k runs quick, ~30 k thorough), directly and with the memoizer stacked between planner and failing store.",
+   note="A planned fault that does not fire (call order varies with scheduling / caching) is inconclusive, counted, never a pass; the wrapper is a well-formed driver (closes its channel once, then returns the error).", ref="DESIGN.md §5 C20"),
  "C04": dict(cat="exploration", technique="runtime reference-model monitor over statement sequences: every graph listed before and after each statement and compared with the statement's stated effect (union / difference / per-row template instantiation, structural reification check, untouched graphs unchanged, rejected statements change nothing)",
    text="Sampled: 640 (quick) to 8000 (thorough) sequences of 10-25 statements of all data and graph kinds with duplicates, overlaps, several targets, bulk sizes 1/3/1000, reification and statements rejected before execution.",
    note="CONSTRUCT rows come from the C03 reference evaluator and are cross-checked against the real SELECT (disagreement => inconclusive, counted); explicit blank nodes are excluded (two admissible readings); one known finding (WHERE without bindings).", ref="DESIGN.md §5 C04, Appendix A"),
